@@ -44,7 +44,7 @@ func c20HashJobs(cr *CheckRun) []Job {
 }
 
 func init() {
-	checkDefs["C20"] = &checkDef{level: "other", pkgs: []string{typesPkg, nodePkg}, run: func(cr *CheckRun) {
+	checkDefs["C20"] = &checkDef{level: "other", pkgs: []string{typesPkg, nodePkg, airPkg}, run: func(cr *CheckRun) {
 		jobs := c20HashJobs(cr)
 		opts := defaultOpts()
 		maxm := 3
@@ -73,8 +73,11 @@ func init() {
 		}
 		res := cr.Pool.Run(jobs)
 		cr.absorb(jobs, res)
+		// airgapped half: a machine on an empty database, given the reinit operation built from the operation log, ends
+		// with the same keyring and answers with the round's public polynomial
+		runCeremony(cr, []Job{ceremonyJob("c20air", 2, 2, map[string]string{"reinit": "1"}, "reinit_dkg on a fresh database of machine 0")}, []map[string]int{{}})
 		cr.samples = append(cr.samples, map[string]interface{}{"hash_fields_checked": c20Fields(2, 2)})
-		cr.explanation = "Hash: CalcStartReInitDKGMessageHash executed from SSA on two reinit files that differ in exactly one field (every field in turn), byte strings as unbounded SMT sequences, SHA-1 uninterpreted and assumed collision-free; determinism by re-hashing. Adaptation: GetAdaptedReDKG/createMessage on symbolic 0.1.4-style logs against a reference walk. Replay: a node that receives the reinit message built from a log (opening proposal, both confirmations, both commitments; n=2; symbolic timestamps and commitment bytes; message ids all empty, as a Kafka board and the airgapped machine produce them, or pairwise distinct) ends in the same public round state as a node that followed the log live, and the reinit operation carries exactly the operations the live node produced. The airgapped half (same share after reinit) rests on kyber determinism and is outside the claim."
+		cr.explanation = "Hash: CalcStartReInitDKGMessageHash executed from SSA on two reinit files that differ in exactly one field (every field in turn), byte strings as unbounded SMT sequences, SHA-1 uninterpreted and assumed collision-free; determinism by re-hashing. Adaptation: GetAdaptedReDKG/createMessage on symbolic 0.1.4-style logs against a reference walk. Replay: a node that receives the reinit message built from a log (opening proposal, both confirmations, both commitments; n=2; symbolic timestamps and commitment bytes; message ids all empty, as a Kafka board and the airgapped machine produce them, or pairwise distinct) ends in the same public round state as a node that followed the log live, and the reinit operation carries exactly the operations the live node produced. Airgapped half (contract level, VF_Air_Ceremony reinit=1): after a full ceremony the operation log of machine 0 is handed as a reinit_dkg operation to a machine with the same mnemonic on an empty database; it replays exactly the request operations, ends with the same keyring (share and polynomial) and answers with that polynomial; run natively with real kyber on every run. Bit-identity of kyber's outputs is its determinism contract."
 		cr.bounds["adapt_log"] = fmt.Sprintf("1..%d messages, three participants (any sender, any other recipient), each message a deal or a commit confirmation with symbolic fields", maxm)
 		cr.bounds["outside"] = "multi-field edits (concatenation without separators collides by construction; the statement quantifies over single-field edits); handleReinitDKG on the airgapped machine (kyber determinism); logs beyond the commitments phase; log written more than an hour before the run or a run longer than an hour (deadlines are days)"
 		cr.assume = append(cr.assume, "SHA-1 collision-free (stated assumption)", "decimal formatting injective", "uuid fresh")
